@@ -4,7 +4,7 @@
 
     Model: LV.Model.FcKernel (cds::algo::flat_combining::kernel, one atomic access per step) driving the
     counting container of harness/C23 (the cnt_ definitions of LV.Model.FcKernel).  Only statements here; the proofs are in
-    LV.Proofs.FcKernelProofs / LV.Proofs.FcContainers.
+    LV.Proofs.FcKernelProofs / LV.Proofs.FcKernelShape / LV.Proofs.FcContainers.
 
     Quantifiers of every theorem: any number of threads, any client programs made of requests (through
     kernel::combine or kernel::batch_combine) and thread exits, EVERY schedule ([Conc.reach] = every sequence
@@ -38,23 +38,52 @@ Print Assumptions C23_fc_single_combiner.
     executed: never twice, never before publication, never after the response; and a "ret" only after the
     "exec"), and the value n returned is the value the execution produced (with distinct request ids: 1).
 
-    The full statement: *)
-Definition C23_fc_exactly_once_mutex_statement : Prop :=
+    Preconditions: the request words are those of the counting container ([ops_ok]), and a request made
+    through plain [combine] needs a combine pass count >= 1 ([passes_ok]: every request is a batch_combine or
+    1 <= npass).  With pass count 0 a combiner would never serve its own record and the real code's
+    `assert( pRec->is_done())` would fail; the kernel's default is 8.
+
+    Proof: LV.Proofs.FcKernelProofs (part A: the LP-annotated trace is valid as long as no record is released
+    unanswered) composed with LV.Proofs.FcKernelShape.fc_never_lost (part B: from the ghost publication-list
+    invariant - the list from m_pHead is duplicate-free, every active record is on it, and a combining pass
+    walks a suffix of it that contains the combiner's own record - no record is ever released unanswered). *)
+Theorem C23_fc_exactly_once_mutex :
+  forall (fuel mask npass : nat) (ths : list (list cop)) c,
+    ops_ok cnt_okop ths -> passes_ok npass ths -> Conc.reach (cnt_init_cfg true fuel mask npass ths) c ->
+    lp_valid CountSpec (cnt_annot (Conc.trace c)).
+Proof. exact fc_exactly_once. Qed.
+Print Assumptions C23_fc_exactly_once_mutex.
+
+(** the same with the simpler precondition "at least one combine pass" *)
+Corollary C23_fc_exactly_once_mutex_npass :
   forall (fuel mask npass : nat) (ths : list (list cop)) c,
     1 <= npass -> ops_ok cnt_okop ths -> Conc.reach (cnt_init_cfg true fuel mask npass ths) c ->
     lp_valid CountSpec (cnt_annot (Conc.trace c)).
+Proof. intros fuel mask npass ths c Hn Hok Hr. exact (fc_exactly_once Hok (passes_ok_pos ths Hn) Hr). Qed.
 
-(** Proved: the statement for every trace in which no record is released unanswered ("lost").  What is
-    missing for the full statement is exactly: "the combining pass of a thread that became combiner reaches the
-    thread's own record" (needs the shape of the publication list; with combine pass count 0 it is false, which
-    is why the full statement carries 1 <= npass).  The step correspondence run never produced a "lost" marker
-    (checks/C23.py counts them). *)
-Theorem C23_fc_exactly_once_mutex_partial :
+(** the compiled-out `assert( pRec->is_done())` of release_record never fails: no "lost" marker on any trace *)
+Theorem C23_fc_never_released_unanswered :
+  forall (fuel mask npass : nat) (ths : list (list cop)) c,
+    ops_ok cnt_okop ths -> passes_ok npass ths -> Conc.reach (cnt_init_cfg true fuel mask npass ths) c ->
+    has_lost (Conc.trace c) = false.
+Proof. exact fc_never_released_unanswered. Qed.
+Print Assumptions C23_fc_never_released_unanswered.
+
+(** the precondition on the pass count is necessary: with npass = 0 a plain [combine] by a lone thread is
+    released unanswered *)
+Example C23_pass_count_zero_loses :
+  let c := fst (Conc.run 400 0 (repeat 0%nat 200) (cnt_init_cfg true 400 0 0 [[CReq false op_single 0%Z]])) in
+  has_lost (Conc.trace c) = true.
+Proof. vm_compute. reflexivity. Qed.
+
+(** Part A alone, for both versions of compact_list ([chk] arbitrary): exactly-once on every trace without the
+    "lost" marker.  (For the code before 5412e9d the marker does occur: see the refutation below.) *)
+Theorem C23_fc_exactly_once_mutex_if_not_lost :
   forall (chk : bool) (fuel mask npass : nat) (ths : list (list cop)) c,
     ops_ok cnt_okop ths -> Conc.reach (cnt_init_cfg chk fuel mask npass ths) c ->
     has_lost (Conc.trace c) = false -> lp_valid CountSpec (cnt_annot (Conc.trace c)).
 Proof. exact fc_exactly_once_partA. Qed.
-Print Assumptions C23_fc_exactly_once_mutex_partial.
+Print Assumptions C23_fc_exactly_once_mutex_if_not_lost.
 
 (** *** records are not used after they were freed *)
 Definition has_uaf (tr : list (nat * ev)) : bool := existsb (is_ev "uaf") tr.
